@@ -52,5 +52,5 @@ if [ $need_race = 1 ]; then
   mv $OUT/upfsim-race.tmp $OUT/upfsim-race
 fi
 # keep the cache small: drop all but the 6 most recent entries
-ls -1dt $CACHE/*/ 2>/dev/null | tail -n +7 | xargs -r rm -rf
+ls -1dt $CACHE/*/ 2>/dev/null | tail -n +31 | xargs -r rm -rf
 echo "$OUT"
